@@ -160,7 +160,7 @@ func (c *Ctx) c07Index(b BK) {
 					k := ev.Args[0]
 					switch {
 					case keyed:
-						if !stringOf(k, key) {
+						if !stringOf(k, key) && !stringOfContent(p.Events, k, key) {
 							r.Bad("R07.1", op, "string-of-key", c.Pos(ev.Pos), "sync.Map key is not string(key parameter): "+k.String(), shortTrace(p))
 							bad = true
 						}
@@ -455,16 +455,29 @@ func (c *Ctx) c07ExpiredAccessors(b BK) {
 			continue
 		}
 		ok := len(paths) > 0
+		nJudged := 0
 		for _, p := range paths {
 			found := false
+			entryNil := false
 			for _, ev := range p.Events {
 				if ev.Kind == pw.EvFieldRead && ev.Field != nil && fname(ev.Field) == m.field && ev.Recv != nil && ev.Recv.Kind == pw.KField && fname(ev.Recv.Field) == "entry" {
 					found = true
 				}
+				// a guard for the impossible zero error value (no entry attached): such paths are not judged
+				if ev.Kind == pw.EvFieldRead && ev.Field != nil && fname(ev.Field) == "entry" && nilTri(p, ev.Value) == triTrue {
+					entryNil = true
+				}
 			}
+			if entryNil {
+				continue
+			}
+			nJudged++
 			if !found {
 				ok = false
 			}
+		}
+		if nJudged == 0 {
+			ok = false
 		}
 		if !ok {
 			r.Bad("R07.2", name, "accessor", "-", fmt.Sprintf("%s must be derived from entry.%s", name, m.field), nil)
